@@ -724,7 +724,10 @@ func (d *Driver) judgeC09() {
 				alone = false
 			}
 		}
-		if !alone {
+		if a.SRet >= d.endStep {
+			// the call was still under way when the plan ended: the harness's own shutdown ran into it
+			d.skip("C09", "deletekey-call-overtaken-by-end-of-plan")
+		} else if !alone {
 			d.skip("C09", "deletekey-concurrent-stop-calls")
 		} else if a.Kind == AStopCtx && a.Act.DeleteKey && a.WasLeaderAtInv {
 			// was X the owner at entry?
